@@ -220,7 +220,9 @@ func (H) Generate(rng *simrt.Rand, prop, tier string) (any, simrt.Config) {
 	if prop == "C12" {
 		sc.Hostile = true
 		sc.CLI = true
-		sc.Breaks = nil
+		if rng.Chance(0.5) {
+			sc.Breaks = nil // otherwise targets also crash and restart (clients re-subscribe, second sync)
+		}
 		all := []string{"single", "group", "proto", "shortproto"}
 		sc.Displays = []string{all[rng.Intn(4)], all[rng.Intn(4)]}
 		for i := range sc.Targets {
